@@ -5,7 +5,6 @@
 // character: it is decided here for every byte value, observed through the real iterator
 // (`AsciiSet::contains` is private).  The oracle is RFC 3986 section 2.3, written as a table.
 use super::*;
-use percent_encoding::percent_decode;
 
 /// RFC 3986 2.3: unreserved = ALPHA / DIGIT / "-" / "." / "_" / "~"
 fn unreserved(b: u8) -> bool {
@@ -42,8 +41,7 @@ fn check_one(b: u8, set: &'static AsciiSet, verbatim: bool) {
     assert!(it.next().is_none());
 }
 
-// killed by: PYTHON_ENCODE_SET without `.add(b'&')` (the byte 0x26 then comes out verbatim) ;
-//            also by `.add(b'~')` (an unreserved character escaped)
+// killed by: PYTHON_ENCODE_SET without `.add(b'%')` (a literal `%` then comes out verbatim: "%41" would decode to "A")
 #[kani::proof]
 #[kani::unwind(4)]
 fn urlencode_set_every_byte() {
@@ -63,66 +61,5 @@ fn urlencode_strict_set_every_byte() {
     check_one(b, NON_ALPHANUMERIC, alnum(b));
 }
 
-/// collects the chunks of the encoder into a fixed buffer; returns the length
-fn collect(input: &[u8], set: &'static AsciiSet, out: &mut [u8; 9]) -> usize {
-    let mut n = 0;
-    for chunk in percent_encode(input, set) {
-        for &c in chunk.as_bytes() {
-            out[n] = c;
-            n += 1;
-        }
-    }
-    n
-}
-
-fn expected(input: &[u8], slash_ok: bool, strict: bool, out: &mut [u8; 9]) -> usize {
-    let mut n = 0;
-    let mut i = 0;
-    while i < input.len() {
-        let b = input[i];
-        let keep = if strict { alnum(b) } else { unreserved(b) || (slash_ok && b == b'/') };
-        if keep {
-            out[n] = b;
-            n += 1;
-        } else {
-            out[n] = b'%';
-            out[n + 1] = hex_upper(b >> 4);
-            out[n + 2] = hex_upper(b & 0x0F);
-            n += 3;
-        }
-        i += 1;
-    }
-    n
-}
-
-// killed by: PYTHON_ENCODE_SET without `.add(b'%')` (then "%41" encodes to itself and decodes to "A")
-#[kani::proof]
-#[kani::unwind(11)]
-fn urlencode_three_bytes_roundtrip() {
-    let raw: [u8; 3] = kani::any();
-    let len: usize = kani::any();
-    kani::assume(len <= 3);
-    let input = &raw[..len];
-    let strict: bool = kani::any();
-    let set: &'static AsciiSet = if strict { NON_ALPHANUMERIC } else { PYTHON_ENCODE_SET };
-    let mut got = [0u8; 9];
-    let n = collect(input, set, &mut got);
-    let mut want = [0u8; 9];
-    let m = expected(input, true, strict, &mut want);
-    assert!(n == m);
-    let mut i = 0;
-    while i < n {
-        assert!(got[i] == want[i]);
-        // only the target alphabet
-        assert!(unreserved(got[i]) || got[i] == b'%' || (!strict && got[i] == b'/'));
-        i += 1;
-    }
-    // percent-decoding the output returns the input
-    let mut d = percent_decode(&got[..n]);
-    let mut j = 0;
-    while j < len {
-        assert!(d.next() == Some(input[j]));
-        j += 1;
-    }
-    assert!(d.next().is_none());
-}
+// NOT KEPT: a <= 3-byte encode/percent_decode round trip through the real iterators (did not finish in
+// 240 s), and the base64 engines (<= 3 bytes through STANDARD_DECODE / URL_SAFE_DECODE: did not finish).
